@@ -21,6 +21,7 @@ import (
 	"fmt"
 	"math/rand"
 	"os"
+	"reflect"
 	"sort"
 	"strconv"
 	"strings"
@@ -376,6 +377,9 @@ func verifConnsNewWorld(c *C, def verifConnsWorldDef, events *[]map[string]inter
 	// stand-ins for the snapstate handlers of the install / remove chains
 	runner.AddHandler("verif-link-snap", w.wrapDo(w.doLink), w.undoLink)
 	runner.AddHandler("verif-post", w.wrapDo(func(*state.Task, *tomb.Tomb) error { return nil }), func(*state.Task, *tomb.Tomb) error { return nil })
+	// a later task of the same change (as "error-trigger" in the package's own undo tests): the task sets
+	// returned by Connect/Disconnect/Forget are composed with further tasks by their callers
+	runner.AddHandler("verif-tail", w.wrapDo(func(*state.Task, *tomb.Tomb) error { return nil }), nil)
 	runner.AddHandler("verif-unlink-snap", w.wrapDo(w.doUnlink), w.undoUnlink)
 	runner.AddHandler("verif-discard-snap", w.wrapDo(w.doDiscard), nil)
 
@@ -619,6 +623,8 @@ func (w *verifConnsWorld) specTask(t *state.Task) verifConnsTask {
 		return verifConnsTask{Kind: "discard-snap", S: w.taskSnap(t)}
 	case "verif-post":
 		return verifConnsTask{Kind: "post", S: w.taskSnap(t)}
+	case "verif-tail":
+		return verifConnsTask{Kind: "tail"}
 	default:
 		return verifConnsTask{Kind: t.Kind(), S: w.taskSnap(t)}
 	}
@@ -737,6 +743,7 @@ func (w *verifConnsWorld) buildChange(op verifConnsOp) (*state.Change, error) {
 		}
 		chg := st.NewChange("connect-snap", "verif connect "+op.C)
 		chg.AddAll(ts)
+		w.addTail(chg, ts)
 		return chg, nil
 	case "disconnect":
 		conn, err := repo.Connection(verifConnsRef(op.C))
@@ -749,6 +756,7 @@ func (w *verifConnsWorld) buildChange(op verifConnsOp) (*state.Change, error) {
 		}
 		chg := st.NewChange("disconnect-snap", "verif disconnect "+op.C)
 		chg.AddAll(ts)
+		w.addTail(chg, ts)
 		return chg, nil
 	case "forget":
 		ts, err := ifacestate.Forget(st, repo, verifConnsRef(op.C))
@@ -757,6 +765,7 @@ func (w *verifConnsWorld) buildChange(op verifConnsOp) (*state.Change, error) {
 		}
 		chg := st.NewChange("disconnect-snap", "verif forget "+op.C)
 		chg.AddAll(ts)
+		w.addTail(chg, ts)
 		return chg, nil
 	case "install":
 		if err := snapstate.CheckChangeConflict(st, op.S, nil); err != nil {
@@ -799,6 +808,14 @@ func (w *verifConnsWorld) buildChange(op verifConnsOp) (*state.Change, error) {
 		return chg, nil
 	}
 	return nil, fmt.Errorf("unknown op %q", op.Name)
+}
+
+// addTail appends a task that waits for the whole task set (same lane): a fault on its entry makes every
+// task of the set run its undo handler, the last one included.
+func (w *verifConnsWorld) addTail(chg *state.Change, ts *state.TaskSet) {
+	tail := w.s.state.NewTask("verif-tail", "verif later task of the same change")
+	tail.WaitAll(ts)
+	chg.AddTask(tail)
 }
 
 func (w *verifConnsWorld) apply(op verifConnsOp) *verifConnsOpResult {
@@ -849,10 +866,32 @@ func (w *verifConnsWorld) apply(op verifConnsOp) *verifConnsOpResult {
 	w.mu.Unlock()
 	w.emit("Settle", map[string]interface{}{"status": res.Status}, res.After, true)
 	w.chg = nil
-	res.RawEq = string(res.Before.RawConns) == string(res.After.RawConns)
+	res.RawEq = verifConnsSameJSON(res.Before.RawConns, res.After.RawConns)
 	res.Restart = w.restart()
 	s.state.Unlock()
 	return res
+}
+
+// verifConnsSameJSON: the two persisted "conns" values are equal as JSON values (every entry, every attribute).
+func verifConnsSameJSON(a, b json.RawMessage) bool {
+	var va, vb interface{}
+	if len(a) > 0 {
+		if err := json.Unmarshal(a, &va); err != nil {
+			return false
+		}
+	}
+	if len(b) > 0 {
+		if err := json.Unmarshal(b, &vb); err != nil {
+			return false
+		}
+	}
+	if m, ok := va.(map[string]interface{}); ok && len(m) == 0 {
+		va = nil
+	}
+	if m, ok := vb.(map[string]interface{}); ok && len(m) == 0 {
+		vb = nil
+	}
+	return reflect.DeepEqual(va, vb)
 }
 
 // restart starts a fresh InterfaceManager on the same state (as after a snapd restart), projects its
@@ -1085,7 +1124,9 @@ func (vs *verifConnsSuite) TestVerifIfaceConns(c *C) {
 					fop := op
 					fop.Fault = faults[rng.Intn(len(faults))]
 					fseq := append(append([]verifConnsOp{}, prefix...), fop)
-					if fpr := runScenario(world, fseq, false); fpr.ok {
+					// (only when the failed change restored everything: a state already reported as not
+					// restored is not explored further, like the spec's ~taintConns guard)
+					if fpr := runScenario(world, fseq, false); fpr.ok && verifConnsRestored(fpr.clean) {
 						expand(wi, world, fseq, fpr.after, level+1, pass)
 					}
 				}
@@ -1117,6 +1158,38 @@ func (vs *verifConnsSuite) TestVerifIfaceConns(c *C) {
 		}
 	}
 	fmt.Printf("VERIF-STATS cases=%d ops=%d wall=%.1fs times=%v\n", r.nCases, r.nOps, time.Since(r.started).Seconds(), verifConnsTimes)
+}
+
+// verifConnsRestored: the change left persisted conns, repository, installed snaps as before, profiles match
+// the repository and active persisted == in-memory.
+func verifConnsRestored(res *verifConnsOpResult) bool {
+	b, a := res.Before, res.After
+	if !reflect.DeepEqual(b.Conns, a.Conns) || !reflect.DeepEqual(b.Repo, a.Repo) || !reflect.DeepEqual(b.Installed, a.Installed) || !res.RawEq {
+		return false
+	}
+	active := []string{}
+	for _, id := range verifConnsUniverse {
+		if cp := a.Conns[id]; cp.Present && !cp.Undesired && !cp.Gone {
+			active = append(active, id)
+		}
+	}
+	sort.Strings(active)
+	if !reflect.DeepEqual(active, a.Repo) {
+		return false
+	}
+	for _, s := range a.Installed {
+		want := []string{}
+		for _, id := range a.Repo {
+			ref := verifConnsRef(id)
+			if ref.PlugRef.Snap == s || ref.SlotRef.Snap == s {
+				want = append(want, id)
+			}
+		}
+		if pr := a.Profiles[s]; !pr.Has || !reflect.DeepEqual(pr.Conns, want) {
+			return false
+		}
+	}
+	return true
 }
 
 // verifConnsSetupCounts: number of Setup calls made by the do handler of each task in a fault-free run,
